@@ -423,6 +423,14 @@ def evidence(prop, tier, batch_seed, total, wall, wall_search, nruns, workers,
         'wall_s': round(wall, 2),
         'violations': int(nviol),
     }
+    if hasattr(eng, 'extra_evidence'):
+        try:
+            extra = eng.extra_evidence(prop, total)
+            ev['coverage'].update(extra)
+            ncls = sum(1 for c in total['cover'] if c.startswith('class-called|'))
+            ev['coverage']['distinct_nontrivial'] -= ncls
+        except Exception as e:
+            ev['coverage']['extra_evidence_error'] = str(e)[:200]
     d = os.path.join(VERIF, 'evidence')
     os.makedirs(d, exist_ok=True)
     with open(os.path.join(d, prop + '.json'), 'w') as f:
